@@ -1115,12 +1115,14 @@ class ElectrumX(SessionBase):
                     await self.send_notification(method, (alias, status))
 
             # Check mempool hashXs - the status is a function of the confirmed state of
-            # other transactions.
-            mempool_statuses = self.mempool_statuses.copy()
-            for hashX, old_status in mempool_statuses.items():
+            # other transactions.  Compare with the status recorded at the moment the new one
+            # replaces it, not with a copy taken before the loop: computing a status can wait on
+            # the DB, and the client may have been sent another status for the hashX meanwhile.
+            for hashX in list(self.mempool_statuses):
                 alias = self.hashX_subs.get(hashX)
                 if alias:
-                    status = await self.subscription_address_status(hashX)
+                    status, old_status = await self.subscription_address_status(
+                        hashX, with_previous=True)
                     if status != old_status:
                         changed.add(alias)
                         await self.send_notification(method, (alias, status))
@@ -1155,6 +1157,12 @@ class ElectrumX(SessionBase):
 
         Status is a hex string, but must be None if there is no history.
         '''
+        status, _previous = await self._address_status(hashX)
+        return status
+
+    async def _address_status(self, hashX):
+        '''Returns (status, previous): previous is the status recorded in mempool_statuses
+        for hashX until this call replaced it, '' (which is no status) if there was none.'''
         # Note history is ordered and mempool unordered in electrum-server
         # For mempool, height is -1 if it has unconfirmed inputs, otherwise 0
         db_history, cost = await self.session_mgr.limited_history(hashX)
@@ -1175,21 +1183,24 @@ class ElectrumX(SessionBase):
         else:
             status = None
 
+        previous = self.mempool_statuses.get(hashX, '')
         if mempool:
             self.mempool_statuses[hashX] = status
         else:
             self.mempool_statuses.pop(hashX, None)
 
-        return status
+        return status, previous
 
-    async def subscription_address_status(self, hashX):
+    async def subscription_address_status(self, hashX, with_previous=False):
         '''As for address_status, but if it can't be calculated the subscription is
-        discarded.'''
+        discarded.  With with_previous, returns the pair of _address_status.'''
         try:
-            return await self.address_status(hashX)
+            status, previous = await self._address_status(hashX)
         except RPCError:
             self.unsubscribe_hashX(hashX)
-            return None
+            # a discarded subscription is always reported
+            status, previous = None, ''
+        return (status, previous) if with_previous else status
 
     async def hashX_listunspent(self, hashX):
         '''Return the list of UTXOs of a script hash, including mempool
